@@ -88,6 +88,20 @@ theorem erase_sorted (o : KeyOrder κ) (l : List (κ × α)) (k : κ) (hs : Sort
       intro q hq
       exact sorted_head_lt o hs q (mem_erase t k q hq)
 
+/-- in a sorted list the erased key is gone -/
+theorem get_erase_self (o : KeyOrder κ) (l : List (κ × α)) (k : κ) (hs : SortedBy o l) : get (erase l k) k = none := by
+  induction l with
+  | nil => rfl
+  | cons hd t ih =>
+    obtain ⟨k', v'⟩ := hd
+    unfold erase
+    by_cases h : k = k'
+    · subst h
+      simp only [if_true]
+      exact get_none_of_lt_head o t k (sorted_tail o hs) (sorted_head_lt o hs)
+    · simp only [h, if_false, get_cons]
+      exact ih (sorted_tail o hs)
+
 /-- total of `f` over the stored values -/
 def sumBy (f : α → Int) (l : List (κ × α)) : Int := (l.map fun p => f p.2).sum
 
